@@ -3,6 +3,7 @@ package fw
 import (
 	"fmt"
 	"os"
+	"path/filepath"
 	"sort"
 	"strings"
 	"time"
@@ -45,6 +46,34 @@ func genPool(e *Env, stream string, n int, tweak func(i int, o *GenOpts)) []*Pro
 		}
 		g := GenProgram(fmt.Sprintf("%s%04d", stream, i), r, o)
 		g.P.AliasImports = i%3 == 1
+		if len(g.P.Pkgs) > 1 {
+			// blank imports of packages the generated code also has to name: in an ordinary file
+			// of the injector's package, or in the injector file itself
+			var paths []string
+			have := map[string]bool{}
+			for rel := range g.P.Files(false) {
+				have[filepath.ToSlash(filepath.Dir(rel))] = true
+			}
+			for k := 1; k < len(g.P.Pkgs); k++ {
+				if have[g.P.ID+"/"+g.P.Pkgs[k].Dir] {
+					paths = append(paths, g.P.ImportPath(k))
+				}
+			}
+			switch i % 5 {
+			case 2:
+				src := "package " + g.P.Pkgs[0].Name + "\n\nimport (\n"
+				for _, ip := range paths {
+					src += "\t_ \"" + ip + "\"\n"
+				}
+				src += "\t_ \"fmt\"\n)\n"
+				if g.P.Extra == nil {
+					g.P.Extra = map[string]string{}
+				}
+				g.P.Extra["0/blank_imports.go"] = src
+			case 4:
+				g.P.InjBlankImports = append(g.P.InjBlankImports, paths...)
+			}
+		}
 		if i%4 == 3 {
 			// a quarter of every pool under an adversarial consistent renaming (same type and
 			// function names in different packages, packages sharing one name, err/cleanup/keyword-like
@@ -238,6 +267,8 @@ func CheckC02(e *Env) int {
 	})...)
 	// a struct and its pointer type from two different sources, fields selected from one of them
 	progs = append(progs, counterpartFamily("cp", e.Seed, e.tierN(2, 1))...)
+	// a parameter named like a later local of an assignable type
+	progs = append(progs, paramLocalCollisionFamily()...)
 	// interface, concrete type and the concrete type's input requested in every order
 	progs = append(progs, bindOrderFamily("bw", e.Seed, e.tierN(6, 1))...)
 	results := RunPool(e, progs, PoolOpts{Execute: true, Name: "c02"})
